@@ -191,6 +191,11 @@ def run_c16(tier, seed):
 C20_VARIANTS = ["task_diff", "task_same", "inner", "inner_list"]
 C20_STATES = ["fresh", "linked", "dangling", "other_real", "other_plain", "other_link"]
 C20_MODES = [(False, False), (True, False), (True, True)]
+# graphs holding a configuration forced into the signature with setmeta(cfg, False) at a Meta[...] argument (the stored
+# "meta": false has to survive the reload done by the repair command): the forced configuration is itself of the deprecated
+# class / is a bystander next to a deprecated parameter / sits at the Meta position of a nested configuration
+# (a forced element of a Meta *list* is not a case: only a configuration that is itself the value of the ignored argument can be forced in)
+C20_META_VARIANTS = ["meta_forced", "meta_forced_bystander", "meta_forced_nested"]
 
 
 def _c20_specs(tier, seed):
@@ -217,6 +222,15 @@ def _c20_specs(tier, seed):
                     variant=variant, state=state, fix=fix, cleanup=cleanup, resubmit=resubmit, bystanders=bystanders, second=second,
                 )
             )
+    # forced-in meta configurations (added after the others: the draws above are unchanged); both fixing modes on a fresh
+    # workspace, real and dry resubmission (quick: one of each per variant, alternating)
+    for k, variant in enumerate(C20_META_VARIANTS):
+        states = ["fresh"] if tier == "quick" else ["fresh", "linked", "dangling"]
+        for j, (state, (fix, cleanup)) in enumerate(itertools.product(states, [(True, False), (True, True)])):
+            resubmits = [("real", "dry")[(k + j) % 2]] if tier == "quick" else ["real", "dry"]
+            for resubmit in resubmits:
+                specs.append(dict(case=f"{variant}/{state}/fix={fix},cleanup={cleanup}/resubmit={resubmit}/2nd-old-job", variant=variant, state=state,
+                                  fix=fix, cleanup=cleanup, resubmit=resubmit, bystanders=False, second=True))
     # the order in which glob() enumerates a directory is unspecified: the "previously linked, now cleanup" cases are
     # run with the enumeration forced ascending and descending (link met before / after the directory it points to)
     for variant in C20_VARIANTS:
@@ -235,7 +249,8 @@ def run_c20(tier, seed):
     graphs = sum(e["cases"] for e in extra if e and "cases" in e)
     return dict(
         tool="cpython: real identifiers of graphs with @deprecate classes; real fix_deprecated on workspaces populated by real runs, then resubmission",
-        bound=f"{graphs} graphs (deprecated instance as root/param/nested/list/dict, task) + {len(repair)} repair cases: 4 variants x 6 states x 3 modes x resubmit dry/real",
+        bound=f"{graphs} graphs (deprecated instance as root/param/nested/list/dict, task) + {len(repair)} repair cases: 4 variants x 6 states x 3 modes x resubmit dry/real"
+              f" + {len(C20_META_VARIANTS)} variants with a configuration forced in by setmeta(cfg, False) at a Meta position (deprecated itself / bystander / nested one level down)",
         cases=graphs + len(repair),
         distinct=len(sigs),
         failures=_dedup(failures),
@@ -672,13 +687,26 @@ def _worker_c20b(spec):
     def fail(name, **kw):
         failures.append(dict(name=name, case=case, **kw))
 
+    def meta_cfg(x, cls):
+        """cls: RepOldCfg (before) / RepNewCfg (replacement) at the place of the class that gets deprecated"""
+        from experimaestro import setmeta
+        if variant == "meta_forced":            # the forced-in value at the Meta position is itself of the deprecated class
+            return z.RepMetaTask(m=setmeta(cls(v=x), False), x=x)
+        if variant == "meta_forced_bystander":  # the deprecated class is an ordinary parameter, another value is forced in
+            return z.RepMetaTask(m=setmeta(z.RepNewCfg(v=x + 10), False), p=cls(v=x), x=x)
+        # one level down: forced-in value of the deprecated class at the Meta position of a nested configuration, plus an unforced
+        # (hence ignored) value at the Meta position of the task
+        return z.RepMetaTask(h=z.RepMetaHolder(m=setmeta(cls(v=x), False), k=2), m=z.RepNewCfg(v=40), x=x)
+
     def old_cfg(x):
+        if variant in C20_META_VARIANTS: return meta_cfg(x, z.RepOldCfg)
         if variant == "task_diff": return z.RepOldTask(x=x)
         if variant == "task_same": return z.RepSameOld(x=x)
         if variant == "inner": return z.RepInnerTask(p=z.RepOldCfg(v=x), x=x)
         return z.RepInnerTask(ps=[z.RepNewCfg(v=9), z.RepOldCfg(v=x)], x=x)
 
     def new_cfg(x):
+        if variant in C20_META_VARIANTS: return meta_cfg(x, z.RepNewCfg)
         if variant == "task_diff": return z.RepNewTask(x=x)
         if variant == "task_same": return z.RepSameNew(x=x)
         if variant == "inner": return z.RepInnerTask(p=z.RepNewCfg(v=x), x=x)
@@ -722,6 +750,12 @@ def _worker_c20b(spec):
         for x in xs:
             if rel(old_cfg(x)) != new_rel[x] or new_rel[x] == old_rel[x]:
                 fail("C20 setup: deprecation should change the identifier to the one of the replacement", x=x, old=old_rel[x], new=new_rel[x], now=rel(old_cfg(x)))
+        if variant in C20_META_VARIANTS:
+            # the forced-in flag matters for the identifier (otherwise the case would not exercise anything)
+            unforced = {"meta_forced": z.RepMetaTask(m=z.RepNewCfg(v=1), x=1), "meta_forced_bystander": z.RepMetaTask(m=z.RepNewCfg(v=11), p=z.RepNewCfg(v=1), x=1),
+                        "meta_forced_nested": z.RepMetaTask(h=z.RepMetaHolder(m=z.RepNewCfg(v=1), k=2), m=z.RepNewCfg(v=40), x=1)}[variant]
+            if rel(unforced) == new_rel[1]:
+                fail("C20 setup: setmeta(cfg, False) at a Meta position should enter the identifier", new=new_rel[1])
         if state == "other_real" and str(new_ran.__xpm__.job.relpath) != new_rel[1]:
             fail("C20 setup: replacement job path", got=str(new_ran.__xpm__.job.relpath), want=new_rel[1])
 
